@@ -49,8 +49,14 @@ theorem expand_length (store : Bytes) (size : Nat) : (expand store size).length 
   · omega
 
 /-- positive length, all three operands and the end of the larger range inside 64 bits and inside the gas cap -/
+theorem memFee_le {a b : Nat} (h : a ≤ b) : memFee a ≤ memFee b := by
+  unfold memFee
+  have : a * a / 512 ≤ b * b / 512 := Nat.div_le_div_right (Nat.mul_le_mul h h)
+  omega
+
 theorem mcopyStep_pos (m : MemState) (gas : Nat) (dst src len : Word) (hl : 0 < len)
-    (hr : max dst src + len ≤ 0x1FFFFFFFE0) (hsm : m.store.length ≤ 0x1FFFFFFFE0) :
+    (hr : max dst src + len ≤ 0x1FFFFFFFE0) (hsm : m.store.length ≤ 0x1FFFFFFFE0)
+    (hal : m.store.length % 32 = 0) (hfee0 : m.lastGasCost = memFee (m.store.length / 32)) :
     mcopyStep m gas dst src len =
       (let W := (max dst src + len + 31) / 32
        let fee := if W * 32 > m.store.length then memFee W - m.lastGasCost else 0
@@ -94,6 +100,13 @@ theorem mcopyStep_pos (m : MemState) (gas : Nat) (dst src len : Word) (hl : 0 < 
     by_cases c : W * 32 > m.store.length
     · rw [if_pos c, if_pos c, if_pos c]
       try dsimp only
+      have hle : m.lastGasCost ≤ memFee W := by rw [hfee0]; exact memFee_le (by omega)
+      have hwrap : (memFee W % U64 + U64 - m.lastGasCost % U64) % U64 = memFee W - m.lastGasCost := by
+        have e1 : memFee W % U64 = memFee W := Nat.mod_eq_of_lt (by omega)
+        have e2 : m.lastGasCost % U64 = m.lastGasCost := Nat.mod_eq_of_lt (by omega)
+        rw [e1, e2, hU]
+        omega
+      rw [hwrap]
       rw [if_neg (by omega), h2'', if_neg (by omega), if_neg (by omega)]
     · rw [if_neg c, if_neg c, if_neg c]
       try dsimp only
